@@ -171,6 +171,7 @@ func Check(w *symex.World, plan *Plan, opt Options) int {
 	os.MkdirAll(filepath.Join(opt.VerifDir, "replays", plan.Property), 0o755)
 	vn := 0
 	seenViol := map[string]bool{}
+	raceChecked := map[string]bool{}
 	for _, cd := range cands {
 		r, ok := nat[cd.id]
 		if opt.NoReplay {
@@ -180,6 +181,19 @@ func Check(w *symex.World, plan *Plan, opt Options) int {
 			replayed++
 		}
 		conf := ok && Confirmed(cd.f, r)
+		if !conf && ok && plan.RaceHarness != "" && !opt.NoReplay {
+			// a transient write leaves no trace in a sequential native run: confirm it as a data race
+			ck := compact(cd.jr.Job.Case)
+			res, seen := raceChecked[ck]
+			if !seen && len(raceChecked) < 6 {
+				res, _ = RunNativeRace(w, opt, []NativeJob{{ID: "race", Harness: plan.RaceHarness, Case: normCase(cd.jr.Job.Case), Asg: cd.f.Model}})
+				raceChecked[ck] = res
+			}
+			if res {
+				conf = true
+				r.Notes = append(r.Notes, "confirmed by go test -race: DATA RACE reported when 8 goroutines run this model concurrently")
+			}
+		}
 		if conf {
 			reproduced++
 		}
@@ -264,7 +278,7 @@ func Check(w *symex.World, plan *Plan, opt Options) int {
 		"property_id": plan.Property,
 		"tier":        opt.Tier,
 		"seed":        opt.Seed,
-		"level":       "model_checking",
+		"level":       levelOf(plan),
 		"wall_s":      wall,
 		"violations":  violations,
 		"assumptions": append(append([]string{
@@ -377,3 +391,10 @@ func sortedKeys(m map[string]bool) []string {
 	return out
 }
 func sortedKeysB(m map[string]bool) []string { return sortedKeys(m) }
+
+func levelOf(p *Plan) string {
+	if p.Level != "" {
+		return p.Level
+	}
+	return "model_checking"
+}
